@@ -112,7 +112,7 @@ def check(run):
             run.violation(sig, text, {"case": c, "outcome": r.get("outcome")})
     # the exit code under --exit-error-on-failure, through the real CLI, for a passing and a failing project
     if run.tier == "thorough" or True:
-        for fail in (False, True, "teardown_suite", "session_fixture_teardown", "disabled_only"):
+        for fail in (False, True, "teardown_suite", "session_fixture_teardown", "disabled_only", "empty_error_log"):
             code = cli_exit_code(fail)
             run.count("cli_exit_code_checked")
             failing = fail not in (False, "disabled_only")
@@ -120,7 +120,8 @@ def check(run):
                 run.violation("exit-code-wrong", "lcc run --exit-error-on-failure returned %s for a project that %s" % (code, {
                     False: "passes", True: "has a failing test", "teardown_suite": "passes all its tests and fails in teardown_suite",
                     "session_fixture_teardown": "passes all its tests and fails in the teardown of a session fixture",
-                    "disabled_only": "passes its only enabled test and has a disabled one"}[fail]),
+                    "disabled_only": "passes its only enabled test and has a disabled one",
+                    "empty_error_log": "logs an error whose message is empty (log_error(str(exc)) for an exception without text)"}[fail]),
                     {"failing_project": fail, "exit_code": code})
     propcommon.search_failing_schedule(run, cases, runoracle.c02_oracle, results)
     run.coverage["rule"] = ("seeded random projects biased towards failures of every kind in every phase and towards user threads; "
@@ -137,6 +138,8 @@ def cli_exit_code(fail):
             src = ("import lemoncheesecake.api as lcc\nfrom lemoncheesecake.matching import *\n\n"
                    "@lcc.suite('s')\nclass mysuite:\n    @lcc.test('t')\n    def t(self%s):\n        check_that('v', 1, equal_to(%d))\n" % (
                        ", fx" if fail == "session_fixture_teardown" else "", 2 if fail is True else 1))
+            if fail == "empty_error_log":
+                src += "    @lcc.test('u')\n    def u(self):\n        lcc.log_error('')\n"
             if fail == "teardown_suite":
                 src += "    def teardown_suite(self):\n        lcc.log_error('teardown fails')\n"
             if fail == "disabled_only":
